@@ -6,13 +6,42 @@ values (Spec/Footprint.lean) and compared with the region extents published in t
 (sizes of the custom operator's flash / scratch / scratch_fast tensors, read with a plain flatbuffer walker)."""
 import common
 import stream_checks
+import ta_lib
 from common import Check, main_wrapper
+
+
+def replay_ta_net(ck):
+    """--replay of a violation found on one of the address-generation networks (profile ta_nets)"""
+    import json
+    import pipeline
+
+    if not ck.replay_arg:
+        return False
+    r = json.load(open(ck.replay_arg))
+    rp = r.get("replay", r)
+    if rp.get("profile") != "ta_nets":
+        return False
+    pipeline.load_vela()
+    out = ta_lib._ta_worker((rp["seed"], rp["index"]))
+    if "harness_exception" in out:
+        raise common.InfraError(out["harness_exception"])
+    n_fm, n_streams = ta_lib.pipeline_level(ck, [out])
+    ck.finish({"programs": n_streams, "evaluations": n_fm + n_streams, "distinct_nontrivial": n_streams,
+               "rule": "replay of one address-generation network", "exhaustive": False})
+    return True
 
 
 def main():
     ck = Check("C02", "translation_validation")
-    ck.lean_stage(["VelaVerif.Props.C02"])
-    outs, lines, owners, answers = stream_checks.run(ck, "C02", 288, 6000, None)
+    ck.lean_stage(["VelaVerif.Props.C02", "VelaVerif.Props.C02Addr"])
+    if replay_ta_net(ck):
+        return
+    # address-generation link, function level: real Tensor methods against Model/TensorAddr.lean, Lean Spec on the real outputs
+    fn_evals, fn_tensors, fn_bad, fn_spec = ta_lib.function_level(ck, 1500 if ck.thorough else 220)
+    outs, lines, owners, answers = stream_checks.run(ck, "C02", 288, 6000, None, want={"stream": True, "extra": ta_lib.pipeline_extra})
+    # ... pipeline level: every NpuFeatureMap against the model, decoded footprints against the tensor's own allocation
+    ta_outs = ta_lib.ta_corpus(ck, 210 if ck.thorough else 35)
+    n_fm, n_alloc_streams = ta_lib.pipeline_level(ck, outs + ta_outs)
     programs = 0
     nontrivial = set()
     accesses = 0
@@ -47,13 +76,25 @@ def main():
     ck.finish({
         "programs": programs,
         "disagreements_checked": sum(1 for a in answers if a.get("bounds", 0) > 0 or a["decode"] != "ok"),
-        "evaluations": len(outs) + programs,
+        "evaluations": len(outs) + programs + fn_evals + n_fm + n_alloc_streams,
         "distinct_nontrivial": len(nontrivial),
         "decoded_operations": accesses,
+        "address_generation": {
+            "function_level_requests": fn_evals, "function_level_tensors": fn_tensors, "function_level_disagreements": fn_bad,
+            "function_level_spec_checks_on_real_outputs": fn_spec,
+            "pipeline_feature_maps_model_vs_create_feature_map": n_fm,
+            "pipeline_streams_footprint_inside_allocation": n_alloc_streams,
+            "targeted_networks": len(ta_outs),
+            "rule": "function level: one request = one call of a real Tensor method (or create_feature_map) compared with "
+                    "Model/TensorAddr.lean, plus Lean Spec checks (inside allocation, disjoint, tiles reach the tensor's own address) "
+                    "on the real outputs; pipeline level: every NpuFeatureMap of every compiled network, and every emitted stream "
+                    "decoded and checked against the allocation of each feature map's tensor"},
         "rule": "program = one emitted command stream of one compiled (network, configuration); non-trivial when it contains "
                 ">= 1 NPU operation; distinct by (profile, index, stream, options)",
         "exhaustive": False,
-    }, assumptions=["element-granular footprints (the hardware touches exactly the addressed elements)",
+    }, assumptions=["tensor identity, box and operator shape of a feature map are taken from Vela's high-level command (cmd.*_tensor, "
+                    "cmd.*_box, ps.ifm_shapes / ofm_shapes); address and storage_size() from the Vela tensor",
+                    "element-granular footprints (the hardware touches exactly the addressed elements)",
                     "implicit IFM extent = (OFM-1)*stride + dilated kernel - pads (no IFM size register)",
                     "region n of the stream is the n-th memory tensor of the custom operator (flash, scratch, scratch_fast)"])
 
